@@ -356,9 +356,9 @@ func universeGen(sys string) *rapid.Generator[gen.Universe] {
 	case "npm":
 		return gen.NPMUniverse(gen.NPMOpts{Aliases: true, Ties: true, Bundles: true})
 	case "maven":
-		return gen.MavenUniverse(gen.MavenUOpts{})
+		return gen.MavenUniverse(gen.MavenUOpts{Ties: true})
 	}
-	return gen.PyPIUniverse()
+	return gen.PyPIUniverseTies()
 }
 
 func seq(n int) []int {
